@@ -10,7 +10,7 @@ EXTENDS Lifecycle, Json
 
 CONSTANT MaxPair
 
-LinkEdits == {"name", "mat_path", "prod_path", "mat_digest", "prod_digest", "mat_alg", "prod_alg", "mat_add",
+LinkEdits == {"name", "mat_path", "mat_path_backslash", "prod_path", "mat_digest", "prod_digest", "mat_alg", "prod_alg", "mat_add",
               "prod_remove", "command_arg", "command_split", "command_add", "stdout", "stdout_trailing_newline",
               "stderr", "retval", "byp_extra_add", "byp_extra_change", "env_to_null", "env_to_empty", "env_add",
               "env_change", "env_key",
@@ -22,7 +22,7 @@ LinkEdits == {"name", "mat_path", "prod_path", "mat_digest", "prod_digest", "mat
 \* expires_plus_year / _day: applied by the harness at every date class (mid-year, 29 Dec .. 3 Jan of
 \* several years, leap day, month ends) - "expiry to the second" must hold at every calendar position
 LayoutEdits == {"readme", "expires_plus1", "expires_minus1", "expires_plus_year", "expires_plus_day", "pubkeys_case", "step_name", "step_threshold", "step_threshold_zero",
-                "pubkeys_add", "pubkeys_remove", "pubkeys_swap", "step_command", "rule_keyword", "rule_pattern",
+                "pubkeys_add", "pubkeys_remove", "pubkeys_swap", "step_command", "rule_keyword", "rule_pattern", "rule_pattern_backslash",
                 "rule_add", "rule_remove", "rule_swap", "match_src", "match_dst", "match_drop_src", "match_with",
                 "match_from", "match_with_dstonly", "match_with_srconly", "match_with_bare", "insp_name", "insp_run", "insp_rule", "keys_add", "keys_remove",
                 "key_entry_scheme", "key_entry_public", "key_entry_halgs", "key_entry_type", "steps_swap",
